@@ -672,6 +672,11 @@ type BooleanUnfold struct {
 //	```
 func UnfoldBooleanAction(unfoldOpts BooleanUnfold) RewriteAction {
 	return func(_ ast.Schemas, _ ast.Builder, option ast.Option) []ast.Option {
+		// nothing to unfold: the option does not assign anything
+		if len(option.Assignments) == 0 || len(option.Assignments[0].Path) == 0 {
+			return []ast.Option{option}
+		}
+
 		intoType := option.Assignments[0].Path.Last().Type
 
 		if !intoType.IsScalar() || intoType.Scalar.ScalarKind != ast.KindBool {
